@@ -68,3 +68,4 @@ func verifTempDir() string
 func verifNameEq(a, b string) bool
 func verifNoLocksHeld() bool
 func verifCaptureStd()
+func verifHeldExclusive() int
